@@ -139,9 +139,9 @@ PROPS = {
     ),
     "C16": dict(
         module="SeliumModel.Props.C16",
-        suites=["pubsub", "reqrep"],
+        suites=["pubsub", "reqrep", "e2eshut"],
         level="proof",
-        rule="pubsub suite: the Sender returned by Topic::pair() is closed in random and systematic states (idle, item buffered, sockets queued, publisher idle, subscriber pending); monitor: a closed topic with no pending sink finishes, and at completion every live sink has everything flushed",
+        rule="pubsub suite: the Sender returned by Topic::pair() is closed in random and systematic states (idle, item buffered, sockets queued, publisher idle, subscriber pending); monitor: a closed topic with no pending sink finishes, and at completion every live sink has everything flushed; reqrep suite: the same for the request/reply router (incl. requests handed to a replier that never answers); e2eshut: a real server in a process of its own with peers in eight states (idle, pub/sub idle and mid-flow, only a requestor, only a replier, both, a request handed to a replier that never answers, six topics) is sent SIGINT: Server::listen must return within 6 s",
         trusted_base=COMMON_TRUST + [
             "futures::channel::mpsc Receiver: FIFO; Ready(Some) while queued, Ready(None) once closed and drained (re-pollable), Pending otherwise and then holds the waker; send/close_channel fire it",
             "tokio_stream::StreamMap::poll_next as modelled exactly in Route/StreamMap.lean (random start given by the observed poll order)",
